@@ -7,6 +7,7 @@ import (
 	"go/token"
 	"go/types"
 	"math/big"
+	"os"
 	"sort"
 	"strings"
 
@@ -246,7 +247,7 @@ func (fc *FnCtx) execBlock(b *ssa.BasicBlock, st *State) []edgeOut {
 			fc.unop(st, x)
 		case *ssa.BinOp:
 			r := fc.binop(st, x)
-			if len(r.T) == 1 && strings.Contains(r.T[0], "(ite ") {
+			if len(r.T) == 1 && strings.Contains(r.T[0], "(ite ") && os.Getenv("CBV_NO_BINDEF") == "" {
 				srt := SInt
 				if fc.e.shape(x.Type()).Leaves[0].Sort == SBool {
 					srt = SBool
